@@ -1,3 +1,4 @@
+pub mod autoutil;
 pub mod rectx;
 pub mod c01;
 pub mod c02;
@@ -5,6 +6,9 @@ pub mod c03;
 pub mod c05;
 pub mod c18;
 pub mod c19;
+pub mod c04;
+pub mod c14;
+pub mod c13;
 pub mod c11;
 pub mod c12;
 pub mod c20;
@@ -24,6 +28,9 @@ pub fn run(p: &Params, rep: &mut Report) -> bool {
         "C05" => c05::run(p, rep),
         "C18" => c18::run(p, rep),
         "C19" => c19::run(p, rep),
+        "C04" => c04::run(p, rep),
+        "C14" => c14::run(p, rep),
+        "C13" => c13::run(p, rep),
         "C11" => c11::run(p, rep),
         "C12" => c12::run(p, rep),
         "C20" => c20::run(p, rep),
@@ -45,6 +52,9 @@ pub fn replay(prop: &str, kind: &str, text: &str, seed: u64, rep: &mut Report) -
         "C05" => c05::replay(kind, text, seed, rep),
         "C18" => c18::replay(kind, text, seed, rep),
         "C19" => c19::replay(kind, text, seed, rep),
+        "C04" => c04::replay(kind, text, seed, rep),
+        "C14" => c14::replay(kind, text, seed, rep),
+        "C13" => c13::replay(kind, text, seed, rep),
         "C11" => c11::replay(kind, text, seed, rep),
         "C12" => c12::replay(kind, text, seed, rep),
         "C20" => c20::replay(kind, text, seed, rep),
